@@ -578,8 +578,9 @@ func replayPing(c Case) Result {
 				sid := "5e551041-0000-4000-8000-0000000000aa"
 				fmt.Fprintf(cn, `{"id":%q,"from":"postmaster@example.com/srv","to":"cli@example.com/i","state":"established"}`+"\n", sid)
 				r.log(Event{K: "session", N: 1})
+				defer r.log(Event{K: "released", N: 1})
 				fmt.Fprintf(cn, `{"id":"ping-1","from":"postmaster@example.com/srv","pp":"watch@example.com/dog","to":"cli@example.com/i","method":"get","uri":"/ping"}`+"\n")
-				cn.SetReadDeadline(time.Now().Add(2 * time.Second))
+				cn.SetReadDeadline(time.Now().Add(12 * time.Second))
 				dec := json.NewDecoder(br)
 				for {
 					var raw json.RawMessage
@@ -633,6 +634,7 @@ func replayPing(c Case) Result {
 	case <-time.After(8 * time.Second):
 		endRes = "close-hangs"
 	}
+	waitFor(func() bool { return r.count("released") >= r.count("session") }, 2*time.Second)
 	r.log(Event{K: "end", Res: endRes})
 	r.mu.Lock()
 	res.Actual = append([]Event(nil), r.evs...)
